@@ -14,7 +14,7 @@ def jobs(tier, seed):
     HEAVY = ("bytes.slice", "bytes.extract32", "bytes.concat", "bytes.len-dependent-copy", "dynarray.read")
     for tid, src in F.c04_family(quick).items():
         for cfg in cfgs:
-            light = quick and tid.startswith(HEAVY) and tid != "bytes.concat.bm"
+            light = quick and tid in ("bytes.slice", "bytes.slice.const-len", "bytes.extract32", "bytes.concat", "bytes.len-dependent-copy", "dynarray.read")
             J.append({"id": f"C04/G/source-semantics[{tid};{cfg}]" + ("/bounds-only" if light else ""), "fn": "vverif.contracts.source_sem:job_src", "args": ("c04." + tid, src, cfg),
                       "kwargs": {"light": light}, "functions": S.FUNCS + FUNCS, "engine": "GenVC"})
     # function-level kernels shared with C14: MemoryLocation.may_overlap / completely_contains soundness is proved there
